@@ -177,22 +177,29 @@ Proof.
 Qed.
 
 Section Life.
+  Variable Bk : name -> comp -> list bool -> list event -> Prop.
+  Hypothesis HBk : forall n c us snap, Bk n c snap (block n c us snap).
   Variable vt : variant.
   Variable s : scenario.
   Let pop := s_pop s.
 
   (* published components have exactly one lifecycle block, whose snapshots are the final set-ness of their
-     injection points; unpublished ones have no lifecycle event at all *)
-  Definition life (st : fstate) : Prop :=
+     injection points; unpublished ones have no lifecycle event at all.  What "one lifecycle block" is, is a
+     parameter Bk (component, its final snapshot, its events): `full_block` below for the plain model; the
+     extended model (Proofs/FactoryXLife.v) also admits the after-callbacks-only block of a short-circuited
+     component.  The only thing asked of Bk is that the full block satisfies it. *)
+  Definition lifeG (st : fstate) : Prop :=
     forall m c, get_comp pop m = Some c ->
       match alookup m (L1 (reg st)) with
       | None => sub m (log st) = []
-      | Some _ => exists us, sub m (log st) = block m c us (snapshot st m c)
+      | Some _ => Bk m c (snapshot st m c) (sub m (log st))
       end.
+  Local Notation life := lifeG.
 
-  Definition rec_life (rec : fstate -> name -> res (fstate * ver)) : Prop :=
+  Definition rec_lifeG (rec : fstate -> name -> res (fstate * ver)) : Prop :=
     forall st d st' v, rec st d = Ok (st', v) ->
       frame st st' /\ mono (reg st) (reg st') /\ (life st -> life st').
+  Local Notation rec_life := rec_lifeG.
 
   Variable rec : fstate -> name -> res (fstate * ver).
   Hypothesis Hrec : rec_life rec.
@@ -206,8 +213,7 @@ Section Life.
   Proof.
     intros HL Hs Hf Hr m c Hc. specialize (HL m c Hc). rewrite Hr, Hs.
     destruct (alookup m (L1 (reg a))) as [v|] eqn:E; [|exact HL].
-    destruct HL as [us Hus]. exists us. rewrite Hus. f_equal.
-    symmetry. apply snapshot_same_fields. apply (Hf m v E).
+    rewrite (snapshot_same_fields a b m c (Hf m v E)). exact HL.
   Qed.
 
   Lemma get_all_life (C : name -> Prop) : forall cands a b vs,
@@ -368,16 +374,19 @@ Section Life.
           intros m cm Hcm. cbn [reg set_reg log]. unfold end_create_ok, add_singleton. cbn [L1].
           destruct (Nat.eq_dec m n) as [->|Hne].
           + rewrite alookup_aset_eq. assert (cm = c) by (unfold pop in Hcm; congruence). subst cm.
-            exists (users (s_pop s) (active st1)).
             rewrite Hblock, sub_app, (sub_all n _ (block_about n c _ _)).
             assert (Hsn : sub n (log st1) = []).
             { rewrite Hs1. specialize (HL0' n c Hcm). rewrite HL0 in HL0'. exact HL0'. }
-            rewrite Hsn, app_nil_r. f_equal. symmetry. apply snapshot_same_fields. intros k. apply Hfo2.
+            rewrite Hsn, app_nil_r.
+            match goal with |- Bk _ _ (snapshot ?b _ _) _ => rewrite (snapshot_same_fields st1 b n c) end.
+            * apply HBk.
+            * intros k. apply Hfo2.
           + rewrite (alookup_aset_neq n m pv _ Hne), Hr2. specialize (HLp m cm Hcm).
             rewrite (Hsub_other m Hne).
             destruct (alookup m (L1 (reg st1))) as [pm|]; [|exact HLp].
-            destruct HLp as [us Hus]. exists us. rewrite Hus. f_equal. symmetry.
-            apply snapshot_same_fields. intros k. apply Hfo2. }
+            match goal with |- Bk _ _ (snapshot ?b _ _) _ => rewrite (snapshot_same_fields st1 b m cm) end.
+            * exact HLp.
+            * intros k. apply Hfo2. }
       unfold get_singleton in H. rewrite (FactoryBasics_get_lookup_false (reg st2) n) in H.
       destruct (match alookup n (L1 (reg st2)) with Some v0 => Some v0 | None => alookup n (L2 (reg st2)) end) as [e|].
       + destruct w as [wv|].
@@ -387,10 +396,18 @@ Section Life.
   Qed.
 End Life.
 
+Definition full_block (n : name) (c : comp) (snap : list bool) (l : list event) : Prop :=
+  exists us, l = block n c us snap.
+Lemma full_block_ok n c us snap : full_block n c snap (block n c us snap).
+Proof. exists us. reflexivity. Qed.
+
+Notation life := (lifeG full_block).
+Notation rec_life := (rec_lifeG full_block).
+
 Theorem do_get_life vt s : forall fuel, rec_life s (do_get vt s fuel).
 Proof.
   induction fuel as [|f IH]; intros st d st' v H; [discriminate|].
-  cbn [do_get] in H. eapply (body_life vt s (do_get vt s f) IH); exact H.
+  cbn [do_get] in H. eapply (body_life full_block full_block_ok vt s (do_get vt s f) IH); exact H.
 Qed.
 
 (* ---------- a whole start -------------------------------------------------------------------------------- *)
